@@ -1,6 +1,6 @@
 (* C08: every output resource of a (tree-level) build is the image of an input resource under the
    directive chain from its layer up to the root - the link between [build] (what the correspondence
-   runs) and [apply_chain_al] (what the chain theorems talk about). *)
+   runs) and [apply_chain] (what the chain theorems talk about). *)
 From KV Require Import Res.Labels Res.LabelsProofs.
 
 Section Tree.
@@ -30,34 +30,34 @@ Section Tree.
   Proof. intros H. induction l; constructor; auto. Qed.
 
   Lemma run_al_pointwise labels fss rs rs' :
-    run_label_transformer_al nonstr labels fss rs = Ok rs' ->
-    Forall2 (fun st st' => run_label_transformer_al nonstr labels fss [st] = Ok [st']) rs rs'.
+    run_label_transformer nonstr labels fss rs = Ok rs' ->
+    Forall2 (fun st st' => run_label_transformer nonstr labels fss [st] = Ok [st']) rs rs'.
   Proof.
-    unfold run_label_transformer_al. destruct labels as [|kv0 rest].
+    unfold run_label_transformer. destruct labels as [|kv0 rest].
     - intros H; inversion H; subst. apply F2_refl. reflexivity.
     - intros H. apply mapM_F2 in H. eapply F2_impl; [|exact H].
       intros a b Hab. cbn [mapM]. rewrite Hab. reflexivity.
   Qed.
 
-  Lemma run_transformers_al_pointwise : forall lts rs rs',
-    run_transformers_al nonstr lts rs = Ok rs' ->
-    Forall2 (fun st st' => run_transformers_al nonstr lts [st] = Ok [st']) rs rs'.
+  Lemma run_transformers_pointwise : forall lts rs rs',
+    run_transformers nonstr lts rs = Ok rs' ->
+    Forall2 (fun st st' => run_transformers nonstr lts [st] = Ok [st']) rs rs'.
   Proof.
-    induction lts as [|[p fss] t IH]; intros rs rs' H; cbn [run_transformers_al] in *.
+    induction lts as [|[p fss] t IH]; intros rs rs' H; cbn [run_transformers] in *.
     - inversion H; subst. apply F2_refl. reflexivity.
-    - destruct (run_label_transformer_al nonstr p fss rs) as [rs1| | |] eqn:E1; cbn [bind] in H; try discriminate.
+    - destruct (run_label_transformer nonstr p fss rs) as [rs1| | |] eqn:E1; cbn [bind] in H; try discriminate.
       apply run_al_pointwise in E1. apply IH in H.
       eapply F2_comp; [|exact E1|exact H]. intros a b c Hab Hbc. cbn beta in *. rewrite Hab. cbn [bind]. exact Hbc.
   Qed.
 
-  Lemma apply_dirs_al_pointwise d rs rs' :
-    apply_dirs_al nonstr tc d rs = Ok rs' ->
-    Forall2 (fun st st' => apply_dirs_al nonstr tc d [st] = Ok [st']) rs rs'.
+  Lemma apply_dirs_pointwise d rs rs' :
+    apply_dirs nonstr tc d rs = Ok rs' ->
+    Forall2 (fun st st' => apply_dirs nonstr tc d [st] = Ok [st']) rs rs'.
   Proof.
-    unfold apply_dirs_al. intros H.
+    unfold apply_dirs. intros H.
     destruct (label_transformers tc d) as [lts| | |]; cbn [bind] in *; try discriminate.
-    destruct (run_transformers_al nonstr lts rs) as [rs1| | |] eqn:E1; cbn [bind] in H; try discriminate.
-    apply run_transformers_al_pointwise in E1. apply run_al_pointwise in H.
+    destruct (run_transformers nonstr lts rs) as [rs1| | |] eqn:E1; cbn [bind] in H; try discriminate.
+    apply run_transformers_pointwise in E1. apply run_al_pointwise in H.
     eapply F2_comp; [|exact E1|exact H]. intros a b c Hab Hbc. cbn beta in *. rewrite Hab. cbn [bind]. exact Hbc.
   Qed.
 
@@ -66,13 +66,13 @@ Section Tree.
   | reach_own d own bases r : In r own -> reaches (Layer d own bases) r [d]
   | reach_base d own bases b r ch : In b bases -> reaches b r ch -> reaches (Layer d own bases) r (ch ++ [d])%list.
 
-  Lemma apply_chain_al_snoc : forall ch st st1 st2 d,
-    apply_chain_al nonstr tc ch st = Ok st1 -> apply_dirs_al nonstr tc d [st1] = Ok [st2] ->
-    apply_chain_al nonstr tc (ch ++ [d]) st = Ok st2.
+  Lemma apply_chain_snoc : forall ch st st1 st2 d,
+    apply_chain nonstr tc ch st = Ok st1 -> apply_dirs nonstr tc d [st1] = Ok [st2] ->
+    apply_chain nonstr tc (ch ++ [d]) st = Ok st2.
   Proof.
-    induction ch as [|d0 t IH]; intros st st1 st2 d H1 H2; cbn [app apply_chain_al] in *.
+    induction ch as [|d0 t IH]; intros st st1 st2 d H1 H2; cbn [app apply_chain] in *.
     - inversion H1; subst. rewrite H2. reflexivity.
-    - destruct (apply_dirs_al nonstr tc d0 [st]) as [l| | |]; cbn [bind] in *; try discriminate.
+    - destruct (apply_dirs nonstr tc d0 [st]) as [l| | |]; cbn [bind] in *; try discriminate.
       destruct l as [|o [|? ?]]; try discriminate. eapply IH; eauto.
   Qed.
 
@@ -84,14 +84,14 @@ Section Tree.
   Theorem build_is_chain : forall n l out,
     layer_size l <= n ->
     accumulate nonstr tc l = Ok out ->
-    Forall (fun st' => exists r ch, reaches l r ch /\ apply_chain_al nonstr tc ch (r, []) = Ok st') out.
+    Forall (fun st' => exists r ch, reaches l r ch /\ apply_chain nonstr tc ch r = Ok st') out.
   Proof.
     induction n as [|n IH]; intros l out Hn H; [destruct l; cbn in Hn; lia|].
     destruct l as [d own bases]. cbn [accumulate] in H.
     match type of H with (do bs <- ?X; _) = _ => destruct X as [bs| | |] eqn:EB end; cbn [bind] in H; try discriminate.
     (* the accumulated bases: each element is a chain image w.r.t. its base *)
     assert (HB : Forall (fun st => exists b r ch, In b bases /\ reaches b r ch /\
-                                    apply_chain_al nonstr tc ch (r, []) = Ok st) bs).
+                                    apply_chain nonstr tc ch r = Ok st) bs).
     { cbn [layer_size] in Hn. clear H. revert bs EB Hn. induction bases as [|b t IHt]; intros bs EB Hn.
       - inversion EB; constructor.
       - destruct (accumulate nonstr tc b) as [x| | |] eqn:Ex; cbn [bind] in EB; try discriminate.
@@ -101,24 +101,24 @@ Section Tree.
           intros st (r & ch & Hr & Hc). exists b, r, ch. split; [left; reflexivity|auto].
         + assert (Hy := IHt y eq_refl ltac:(lia)). eapply Forall_impl; [|exact Hy].
           intros st (b' & r & ch & Hb & Hr & Hc). exists b', r, ch. split; [right; exact Hb|auto]. }
-    apply apply_dirs_al_pointwise in H.
+    apply apply_dirs_pointwise in H.
     (* inputs of this layer's transformers *)
     assert (HI : Forall (fun st => (exists b r ch, In b bases /\ reaches b r ch /\
-                                      apply_chain_al nonstr tc ch (r, []) = Ok st) \/
-                                   (exists r, In r own /\ st = (r, [])))
-                        (bs ++ map (fun n0 => (n0, [])) own)).
+                                      apply_chain nonstr tc ch r = Ok st) \/
+                                   (exists r, In r own /\ st = r))
+                        (bs ++ own)).
     { apply Forall_app. split.
       - eapply Forall_impl; [|exact HB]. intros; left; auto.
-      - apply Forall_forall. intros st Hin. apply in_map_iff in Hin as (r & <- & Hr). right. exists r; auto. }
+      - apply Forall_forall. intros st Hin. right. exists st; auto. }
     clear HB EB. revert HI. induction H as [|st st' l1 l2 Hst HF IHF]; intros HI; [constructor|].
     inversion HI as [|? ? Hhd Htl]; subst. constructor; [|apply IHF; exact Htl].
     destruct Hhd as [(b & r & ch & Hb & Hr & Hc)|(r & Hr & ->)].
-    - exists r, (ch ++ [d])%list. split; [eapply reach_base; eauto|eapply apply_chain_al_snoc; eauto].
-    - exists r, [d]. split; [apply reach_own; exact Hr|]. cbn [apply_chain_al]. rewrite Hst. reflexivity.
+    - exists r, (ch ++ [d])%list. split; [eapply reach_base; eauto|eapply apply_chain_snoc; eauto].
+    - exists r, [d]. split; [apply reach_own; exact Hr|]. cbn [apply_chain]. rewrite Hst. reflexivity.
   Qed.
 
   Corollary build_outputs_are_chain_images : forall l out,
     accumulate nonstr tc l = Ok out ->
-    Forall (fun st' => exists r ch, reaches l r ch /\ apply_chain_al nonstr tc ch (r, []) = Ok st') out.
+    Forall (fun st' => exists r ch, reaches l r ch /\ apply_chain nonstr tc ch r = Ok st') out.
   Proof. intros l out. apply (build_is_chain (layer_size l)). apply le_n. Qed.
 End Tree.
